@@ -70,6 +70,20 @@ func c06Rebind(r *Rng) Case {
 			}
 		}
 	}
+	// late packets through the reader of an earlier binding of the SSRC (op `stale`): they continue the OLD numbering,
+	// or would be the next / an older / a far newer packet of the new binding; the reports count the new binding only
+	staleOps := func(s *st, oldExt, oldTs int) {
+		for k := r.Pick(0, 1, 1, 2, 3); k > 0; k-- {
+			seq, ts := oldExt+k, oldTs+k*s.tsStep
+			if r.Bool() {
+				seq, ts = s.ext+r.Pick(1, 1, 2, 0, -1, -5, 100, 32768, 40000), s.ts+r.Pick(0, s.tsStep, -s.tsStep)
+			}
+			ops = append(ops, fmt.Sprintf("stale ssrc=%d k=%d seq=%d ts=%d dt=%d", s.ssrc, r.Intn(4), seq&0xFFFF, ts&0xFFFFFFFF, r.Pick(0, 1000, s.pace)))
+			if r.Chance(1, 4) {
+				ops = append(ops, "tick")
+			}
+		}
+	}
 	a := &st{ssrc: r.Pick(1, 2, 0, 4294967295, 777, 123456789)}
 	fresh(a, r.Pick(90000, 48000, 8000))
 	b := &st{ssrc: a.ssrc ^ 1}
@@ -80,6 +94,7 @@ func c06Rebind(r *Rng) Case {
 		phase(r.Range(3, 25), a)
 	}
 	for rounds := r.Pick(1, 1, 2, 3); rounds > 0; rounds-- {
+		oldExt, oldTs := a.ext, a.ts
 		switch variant {
 		case 0, 4: // bound again while still bound (4: before the first packet)
 			fresh(a, otherRate(a.rate))
@@ -103,10 +118,19 @@ func c06Rebind(r *Rng) Case {
 			fresh(a, otherRate(a.rate))
 			bind(a)
 		}
+		stale := r.Chance(2, 3)
+		if stale && r.Bool() {
+			staleOps(a, oldExt, oldTs) // before the new binding has received anything
+		}
 		if variant == 2 {
 			phase(r.Range(3, 25), a, b)
 		} else {
 			phase(r.Range(3, 25), a)
+		}
+		if stale {
+			staleOps(a, oldExt, oldTs)
+			phase(r.Range(1, 6), a)
+			ops = append(ops, "tick")
 		}
 		variant = r.Pick(0, 0, 1, 2, 3)
 	}
